@@ -613,11 +613,25 @@ def error_capture(chk, main, ex):
             t = dotted(h.type) if h.type is not None else "BaseException"
             if t not in ("Exception", "BaseException"):
                 continue
-            for st in h.body:
-                if isinstance(st, ast.If) and online_test(st.test) == 1:
-                    records, unsafe = recording_stmts(st.body)
+            # statements of the handler that run exactly when online:
+            # `if online:` body, `if not online: ... else:` orelse, or what
+            # follows an `if not online: raise`
+            arm = None
+            for i, st in enumerate(h.body):
+                pol = online_test(st.test) if isinstance(st, ast.If) else 0
+                if pol == 1:
+                    arm = st.body
+                elif pol == -1 and st.orelse:
+                    arm = st.orelse
+                elif pol == -1 and terminates(st.body):
+                    arm = h.body[i + 1:]
+                if arm:
+                    break
+            if arm:
+                if True:
+                    records, unsafe = recording_stmts(arm)
                     reraises = any(isinstance(m, ast.Raise) for m in ast.walk(
-                        ast.Module(body=st.body, type_ignores=[])))
+                        ast.Module(body=arm, type_ignores=[])))
                     for u in unsafe:
                         chk.ob("C19.handler-cannot-raise",
                                f"main:{' '.join(ast.unparse(u).split())[:70]}",
